@@ -25,6 +25,7 @@ EXPLANATION = (
     "empty list to 0, single indices are converted with slice(i, i + 1 or None), every mutator computes the focus before one list call and stores it after); (10) the widget-API methods of the list containers read focus_position (which raises IndexError when empty, by contract) only where emptiness was excluded, so an empty "
     "container hands keys back and reports no cursor instead of raising; (8) the dict-like Frame.contents does not define __len__/__iter__ through the Mapping mixin methods that are themselves derived from them."
     " Added after seed round 3: (11) EXHAUST - an if/else on the key's command whose else-arm stands for the other command is reached only after the key was restricted to those two commands (only a `self.selectable()` test may bypass the restriction: the calling convention); (12) CommandMap.copy() gives the copy its own dict."
+    " Round 4: (13) OPTCALL - get_cursor_coords / get_pref_col / move_cursor_to_coords / mouse_event are called on a child only under hasattr(child, method); (14) GridFlow: every store of a row's focus_position sets the latch the default-focus test reads; (15) an index is clamped to len-1 under `index >= len`."
 )
 NOT_DECIDED = "Validity of the index after arbitrary edit histories (C16's arithmetic), the choice of the arrow-key target, which widgets are rendered with focus=True, ListBox focus bookkeeping."
 ASSUMPTIONS = []
